@@ -167,6 +167,7 @@ PREFER = {
     "exhaustion_demotes_leader": ["MC_Wit_NR2.cfg", "MC_Wit_OutNR2.cfg"], "double_promotion": ["MC_Wit_OutNR2.cfg", "MC_Wit_Out.cfg"],
     "stale_event_demotes": ["MC_Wit_Restart.cfg", "MC_Core2_quick.cfg"], "promote_ctx_is_election_ctx": ["MC_Core2_quick.cfg"],
     "stop_keeps_claim": ["MC_Core2_quick.cfg"], "claim_after_stop": ["MC_Core2_quick.cfg"],
+    "watch_failure_gives_up": ["MC_VacancyFault_thorough.cfg"], "disconnect_ignored_while_follower": ["MC_Conn_quick.cfg", "MC_Conn_thorough_single.cfg"],
 }
 
 
